@@ -9,6 +9,25 @@ HERE = os.path.dirname(os.path.dirname(os.path.realpath(__file__)))
 PY = '/venv/bin/python'
 
 CHECKS = {
+    'C02': dict(
+        category='exploration',
+        technique='round-trip / canonical-form oracle over enumerated boundary values and seeded random frames, differential across codec backends in two processes',
+        text='Every generated frame value is encoded, decoded (fields compared), re-encoded (bytes compared), written '
+             'incrementally and through TransportTCP.send_frame (bytes and length prefix compared) in this process '
+             '(cbitstruct) and in a helper process with cbitstruct blocked (native struct); per-frame digests must agree. '
+             'Boundary product complete per type in the thorough tier. Held-on-explored.',
+        note='Frame values are built by attribute assignment as frame_builders does; cbitstruct is a black box (no memory '
+             'safety claim); an independent mini codec is cross-checked and disagreements are counted, not judged.',
+        design='4/C02'),
+    'C03': dict(
+        category='exploration',
+        technique='measurement + reassembly oracle over an exhaustive (data length x metadata length) window per fragment size, framing mode and frame variant',
+        text='Every fragment produced by Frame.get_next_fragment is serialised as the transport would, measured against '
+             'the limit, checked for type/flags/ordering, parsed back with the real decoder and reassembled with a real '
+             'FrameFragmentCache; the window 0..3*limit+8 is enumerated completely for sizes 64..72,100,127..129 '
+             '(thorough), plus random large sizes. Held-on-explored; one recorded known finding.',
+        note='Frames are built with rsocket.frame_builders; wire size = len(serialize()) + 3 on byte-stream transports.',
+        design='4/C03'),
     'C13': dict(
         category='exploration',
         technique='reference-model monitor over exhaustively enumerated allocator histories + wire monitor on real endpoints',
